@@ -422,3 +422,48 @@ Proof.
   intros b s Hm t o Hex Hin. rewrite (exec_mentions s t o Hex b Hin) in Hm. discriminate Hm.
 Qed.
 Print Assumptions never_checked.
+
+(* ---------- the held-lock automaton ---------- *)
+Lemma held_run : forall l v t q q' d, orun (held_step l v) q t = Some q' -> q <= d ->
+  forall t1 t2, t = t1 ++ (KCall, v) :: t2 -> 0 < depth_from l d t1.
+Proof.
+  intros l v. induction t as [|e r IH]; intros q q' d H Hle t1 t2 Ht.
+  - destruct t1; discriminate Ht.
+  - cbn [orun] in H. destruct (held_step l v q e) as [q1|] eqn:Es; [|discriminate H].
+    destruct t1 as [|x t1'].
+    + injection Ht as -> _. cbn [depth_from fold_left]. unfold held_step in Es.
+      assert (Ea : is_acq (KCall, v) l = false) by (unfold is_acq, is_op; rewrite andb_false_r; reflexivity).
+      assert (Er : is_rel (KCall, v) l = false) by (unfold is_rel, is_op; rewrite andb_false_r; reflexivity).
+      assert (Ec : is_call (KCall, v) v = true) by (apply is_call_spec; reflexivity).
+      rewrite Ea, Er, Ec in Es. destruct (q =? 0) eqn:E0; [discriminate Es|].
+      apply N.eqb_neq in E0. lia.
+    + injection Ht as He Hr. subst x. cbn [depth_from fold_left].
+      apply (IH q1 q' (depth_step l d e) H) with (t2 := t2); [|exact Hr].
+      unfold held_step in Es. unfold depth_step.
+      destruct (is_acq e l).
+      * injection Es as <-. lia.
+      * destruct (is_rel e l).
+        -- injection Es as <-. lia.
+        -- destruct (is_call e v); [destruct (q =? 0); [discriminate Es|]|]; injection Es as <-; exact Hle.
+Qed.
+
+Theorem held_means : forall l v t q, orun (held_step l v) 0 t = Some q -> protected l v t.
+Proof.
+  intros l v t q H t1 t2 Ht. exact (held_run l v t 0 q 0 H (N.le_refl 0) t1 t2 Ht).
+Qed.
+Print Assumptions held_means.
+
+Theorem held_checked : forall fuel l v s,
+  oanalyse (held_step l v) fuel s = [] -> forall t o, exec s t o -> protected l v t.
+Proof.
+  intros fuel l v s Hc t o Hex. destruct (oanalyse_sound _ fuel s Hc t o Hex) as [q R].
+  exact (held_means l v t q R).
+Qed.
+Print Assumptions held_checked.
+
+Example held_examples :
+  oanalyse (held_step 7 1) 4 (SSeq (SEv KRLock 7) (SSeq (SLoop (SCont (SEv KCall 1)) SSkip) (SEv KRUnlock 7))) = []
+  /\ oanalyse (held_step 7 1) 4 (SSeq (SEv KLock 7) (SSeq (SEv KUnlock 7) (SEv KCall 1))) <> []
+  /\ oanalyse (held_step 7 1) 4 (SSeq (SAlt (SEv KLock 7) SSkip) (SEv KCall 1)) <> []
+  /\ oanalyse (held_step 7 1) 4 (SSeq (SEv KLock 8) (SEv KCall 1)) <> [].
+Proof. repeat split; vm_compute; congruence. Qed.
